@@ -627,7 +627,8 @@ func (h *hist) opStop(name string) {
 }
 
 // reload compares a group that was loaded from its meta page (reopen, or re-creation of a stopped group) with
-// the stored positions: consumed unchanged, ack = max(own, queue ack) as documented.
+// the stored positions: ack = max(own, queue ack) and consumed = max(own, ack) - a group never (re)starts behind
+// the queue's acknowledged position, and never with ack > consumed.
 func (h *hist) reload(g *mGroup, handle queue.ConsumerGroup, via string) {
 	wasStopped := g.stopped
 	stc, sta := g.consumed, g.ack
@@ -635,23 +636,14 @@ func (h *hist) reload(g *mGroup, handle queue.ConsumerGroup, via string) {
 	if h.qack > expAck {
 		expAck = h.qack
 	}
+	expC := stc
+	if expAck > expC {
+		expC = expAck
+	}
 	rc, ra := handle.ConsumedSeq(), handle.AcknowledgedSeq()
 	g.h, g.exists, g.stopped, g.paused, g.onDisk = handle, true, false, false, true
 	if wasStopped {
 		h.res.count("stopped_group_reloaded_by_"+via, 1)
-	}
-	if g.resetWhileStopped {
-		// an index reset (SetAppendedSeq) happened while the group was stopped; it was not applied to it
-		g.suspended = "index-reset-while-stopped"
-		g.resetWhileStopped = false
-		h.res.count("reload_after_index_reset_while_stopped", 1)
-		g.consumed, g.ack, g.overtaken = rc, ra, false
-		g.below = ra < h.qack
-		return
-	}
-	if rc != stc {
-		h.fail("C06/"+via+"/consumed-changed", "group %s: consumed %d before, %d after %s", g.name, stc, rc, via)
-		return
 	}
 	if ra != expAck {
 		cl := "C06/" + via + "/ack-changed"
@@ -664,24 +656,43 @@ func (h *hist) reload(g *mGroup, handle queue.ConsumerGroup, via string) {
 	if ra != sta {
 		h.res.count("reload_raised_ack_to_queue_ack", 1)
 	}
-	g.consumed, g.ack = rc, ra
-	if ra > rc && g.suspended == "" {
-		switch {
-		case wasStopped && g.overtaken:
-			h.violate("C06/reload-ack-above-consumed/stopped-then-overtaken/"+via,
-				"group %s was stopped with consumed=%d ack=%d, the queue ack then moved to %d, and after %s the group exists again with consumed=%d ack=%d (ack > consumed)",
-				g.name, stc, sta, h.qack, via, rc, ra)
-		case g.below:
-			h.violate("C06/reload-ack-above-consumed/created-below-queue-ack/"+via,
-				"group %s was created below the queue ack (stored consumed=%d ack=%d, queue ack %d); after %s consumed=%d ack=%d (ack > consumed)",
-				g.name, stc, sta, h.qack, via, rc, ra)
-		default:
-			h.violate("C06/order/ack-above-consumed/"+via, "group %s: stored consumed=%d ack=%d, queue ack %d, after %s consumed=%d ack=%d", g.name, stc, sta, h.qack, via, rc, ra)
+	if rc != expC {
+		if rc == stc && rc < ra {
+			// consumed left behind the (raised) ack: the group comes back with ack > consumed
+			switch {
+			case wasStopped && g.overtaken:
+				h.fail("C06/reload-ack-above-consumed/stopped-then-overtaken/"+via,
+					"group %s was stopped with consumed=%d ack=%d, the queue ack then moved to %d, and after %s the group exists again with consumed=%d ack=%d (ack > consumed)",
+					g.name, stc, sta, h.qack, via, rc, ra)
+			case g.below:
+				h.fail("C06/reload-ack-above-consumed/created-below-queue-ack/"+via,
+					"group %s was created below the queue ack (stored consumed=%d ack=%d, queue ack %d); after %s consumed=%d ack=%d (ack > consumed)",
+					g.name, stc, sta, h.qack, via, rc, ra)
+			default:
+				h.fail("C06/reload-ack-above-consumed/other/"+via, "group %s: stored consumed=%d ack=%d, queue ack %d, after %s consumed=%d ack=%d (ack > consumed)", g.name, stc, sta, h.qack, via, rc, ra)
+			}
+			return
 		}
-		g.suspended = "reported"
+		h.fail("C06/"+via+"/consumed-changed", "group %s: stored consumed=%d ack=%d, queue ack %d, after %s consumed=%d (expected %d)", g.name, stc, sta, h.qack, via, rc, expC)
+		return
 	}
-	g.overtaken = false
-	g.below = ra < h.qack
+	if rc != stc {
+		h.res.count("reload_raised_consumed_to_ack", 1)
+		if wasStopped && g.overtaken {
+			h.res.count("reload_of_stopped_group_overtaken_by_queue_ack", 1)
+		}
+	}
+	g.consumed, g.ack = rc, ra
+	g.overtaken, g.below = false, false
+	if g.resetWhileStopped {
+		// an index reset (SetAppendedSeq) happened while the group was stopped; it was not applied to it, so its
+		// consumed position may lie beyond the new appended position: the explicit reset of the statement
+		g.resetWhileStopped = false
+		if rc > h.appended {
+			g.suspended = "index-reset-while-stopped"
+			h.res.count("reload_after_index_reset_while_stopped", 1)
+		}
+	}
 }
 
 func (h *hist) opCreate(name string) {
@@ -714,6 +725,9 @@ func (h *hist) opCreate(name string) {
 		// documented: "creates a new ConsumerGroup with consume seq and ack seq == queue ack seq"
 		if c == h.qack && a == h.qack {
 			g.consumed, g.ack, g.below = c, a, false
+			if h.qack >= 0 {
+				h.res.count("new_group_started_at_advanced_queue_ack", 1)
+			}
 		} else if c == -1 && a == -1 {
 			h.violate("C06/new-group-starts-below-queue-ack",
 				"GetOrCreateConsumerGroup(%s) with queue ack %d (appended %d) created a group with consumed=-1 ack=-1; it will be handed sequences 0..%d which Get refuses",
